@@ -430,7 +430,7 @@ CHECKS = {
         'level': 'model_checking',
         'jobs': [
             T('MC_Surveyor', 'Surveyor_quick.cfg'),
-            T('MC_Surveyor', 'Surveyor_full.cfg', tiers=('thorough',), timeout=3000),
+            T('MC_Surveyor', 'Surveyor_full.cfg', tiers=('thorough',), timeout=2400),
             C('surveyor', 'TestSurveyor', 'TraceSurveyor', n={'quick': 120, 'thorough': 1500}),
             C('respondent', 'TestRespondent', 'TraceRespondent', n={'quick': 40, 'thorough': 400}),
             T('MC_RawSock', 'Raw_xsurveyor.cfg'), R('xsurveyor', 'xsurveyor'), R('xrespondent', 'xrespondent'),
